@@ -1,4 +1,6 @@
 import GMGModel.Concrete
+import GMGModel.Build
+import GMGDriver.CacheDrv
 import Generated.Stencils
 import GMGDriver.TraceDrv
 import GMGDriver.OpsDrv
@@ -12,6 +14,8 @@ structure St where
   stats : Stats := {}
   cfgLine : List String := []
   lvls : Array Lvl := #[]
+  raw : Array (List String) := #[]      -- the CLV records as received (the hierarchy is BUILT from them by `Build.hier`)
+  builtOpsBitEq : Nat := 0
   rhsQ : Array (Array Rat) := #[]
   rhsF : Array (Array Float) := #[]
   cycles : Nat := 0
@@ -39,10 +43,10 @@ def mem {α : Type} (zero : α) (sizes : Array Nat) (x0 : Array α) (rhs : Array
 def step (st : St) (line : String) : IO St := do
   let toks := fields line
   match toks with
-  | "CON" :: rest => return { st with cfgLine := rest, lvls := #[], rhsQ := #[], rhsF := #[], stats := { st.stats with cases := st.stats.cases + 1 } }
+  | "CON" :: rest => return { st with cfgLine := rest, lvls := #[], raw := #[], rhsQ := #[], rhsF := #[], stats := { st.stats with cases := st.stats.cases + 1 } }
   | "CLV" :: rest =>
     let l := parseLevel rest
-    return { st with lvls := st.lvls.push l, rhsQ := st.rhsQ.push (parseRatsA ((kv rest "rhs").getD "")), rhsF := st.rhsF.push (parseFloatsA ((kv rest "rhs").getD "")) }
+    return { st with lvls := st.lvls.push l, raw := st.raw.push rest, rhsQ := st.rhsQ.push (parseRatsA ((kv rest "rhs").getD "")), rhsF := st.rhsF.push (parseFloatsA ((kv rest "rhs").getD "")) }
   | "COUT" :: rest =>
     let c := st.cfgLine
     let L := toNat! ((kv c "L").getD ""); let kind := TraceDrv.kindOf ((kv c "kind").getD ""); let ex := (kv c "extrap") == some "1"; let fgs := (kv c "fgs") == some "1"
@@ -59,7 +63,44 @@ def step (st : St) (line : String) : IO St := do
       (List.range (L - 1)).map (fun l => mkPair (st.lvls.getD l {}).op (st.lvls.getD (l + 1) {}).op), tinyQ, tables⟩
     let HF : Hier Float := ⟨(st.lvls.map fun l => (⟨l.opF, l.nc⟩ : LevelData Float)).toList,
       (List.range (L - 1)).map (fun l => mkPair (st.lvls.getD l {}).opF (st.lvls.getD (l + 1) {}).opF), tinyF, tables⟩
-    let yF := Concrete.cycleL HF cfg kind ex fgs (mem 0.0 sizes x0F st.rhsF)
+    -- the double hierarchy is BUILT inside the model from the raw inputs the way setup() builds it (GMGModel/Build.lean): the input
+    -- functions as tables over the finest grid's nodes, `Cache.fresh` on level 0, `Cache.coarsen` (sampling) below, operator data
+    -- through `Cache.obtain`; `HF` above (per-level data as the harness evaluated them) is kept as a cross-check of that construction
+    let gridsF : List (Cache.GridData Float) := (List.range st.raw.size).map fun l =>
+      let t := st.raw.getD l []
+      let nr := toNat! ((kv t "nr").getD ""); let nt := toNat! ((kv t "nt").getD ""); let nc := toNat! ((kv t "nc").getD "")
+      let radii := parseFloatsA ((kv t "radii").getD ""); let angles := parseFloatsA ((kv t "angles").getD "")
+      ⟨⟨nr, nt, nc, Grid.pow2Flag nt⟩, fun i => radii.getD i 0, fun j => angles.getD j 0⟩
+    let t0 := st.raw.getD 0 []
+    let envF : Cache.Env Float := Id.run do
+      let nr := toNat! ((kv t0 "nr").getD ""); let nt := toNat! ((kv t0 "nt").getD "")
+      let radii := parseFloatsA ((kv t0 "radii").getD ""); let angles := parseFloatsA ((kv t0 "angles").getD "")
+      let J := parseFloatsA ((kv t0 "J").getD ""); let al := parseFloatsA ((kv t0 "alpha").getD ""); let be := parseFloatsA ((kv t0 "beta").getD "")
+      let mut jac : Std.HashMap (UInt64 × UInt64) (Float × Float × Float × Float) := {}
+      let mut am : Std.HashMap UInt64 Float := {}
+      let mut bm : Std.HashMap UInt64 Float := {}
+      for i in [0:nr] do
+        am := am.insert (radii.getD i 0).toBits (al.getD i 0)
+        bm := bm.insert (radii.getD i 0).toBits (be.getD i 0)
+        for j in [0:nt] do
+          let b := 4 * (i * nt + j)
+          jac := jac.insert ((radii.getD i 0).toBits, (angles.getD j 0).toBits) (J.getD b 0, J.getD (b+1) 0, J.getD (b+2) 0, J.getD (b+3) 0)
+      return CacheDrv.env { jac := jac, alpha := am, beta := bm }
+    let bc0 := (st.lvls.getD 0 {}).bc
+    let HB : Hier Float := Build.hier envF gridsF bc0 true true tinyF tables
+    -- cross-check: the built operator data against the per-level data, bit for bit at every node
+    let mut builtEq := true
+    let mut why := ""
+    for l in [0:L] do
+      let a := (Concrete.lvl HB l).op; let b := (Concrete.lvl HF l).op
+      if a.nr != b.nr ∨ a.nt != b.nt ∨ (Concrete.lvl HB l).nc != (Concrete.lvl HF l).nc then builtEq := false; why := s!"shape level {l}"
+      for i in [0:a.nr] do
+        if (a.h i).toBits != (b.h i).toBits ∧ i + 1 < a.nr ∨ (a.beta i).toBits != (b.beta i).toBits then builtEq := false; why := s!"h/beta level {l} row {i}: {a.h i} {b.h i} {a.beta i} {b.beta i}"
+        for j in [0:a.nt] do
+          if (a.arr i j).toBits != (b.arr i j).toBits ∨ (a.att i j).toBits != (b.att i j).toBits ∨ (a.art i j).toBits != (b.art i j).toBits
+              ∨ (a.det i j).toBits != (b.det i j).toBits ∨ (a.k j).toBits != (b.k j).toBits then builtEq := false; why := s!"level {l} node ({i},{j}): arr {a.arr i j} {b.arr i j} att {a.att i j} {b.att i j} art {a.art i j} {b.art i j} det {a.det i j} {b.det i j} k {a.k j} {b.k j}"
+    stats ← check stats builtEq fun _ => s!"{tag}: the hierarchy built inside the model (Build.hier: fresh cache on level 0, sampled caches below) differs from the level data evaluated at each level's own nodes ({why})"
+    let yF := Concrete.cycleL HB cfg kind ex fgs (mem 0.0 sizes x0F st.rhsF)
     -- exact rationals only for the smallest cases: the numerators grow with every line solve, a whole cycle on three levels or
     -- with several smoothing steps is out of reach; the double execution covers all cases
     let exact := L == 2 ∧ nu1 + nu2 ≤ 2 ∧ (st.lvls.getD 0 {}).nr * (st.lvls.getD 0 {}).nt ≤ 160
@@ -84,7 +125,7 @@ def step (st : St) (line : String) : IO St := do
       if (List.range outF.size).all fun q => (outF.getD q 0).toBits == (yf.getD q 0).toBits then bitEq := 1
     | _, _ => stats ← check stats false fun _ => s!"{tag}: the model cycle ends in an exit / out-of-bounds outcome (rationals: {yQ.isSome}, double: {yF.isSome}), the implementation returned"
     let sample := if st.sample.length < 3 then st.sample ++ [tag] else st.sample
-    return { st with stats := stats, cycles := st.cycles + 1, exactCycles := st.exactCycles + (if exact then 1 else 0), bitEq := st.bitEq + bitEq, worst := worst, sample := sample }
+    return { st with stats := stats, builtOpsBitEq := st.builtOpsBitEq + (if builtEq then 1 else 0), cycles := st.cycles + 1, exactCycles := st.exactCycles + (if exact then 1 else 0), bitEq := st.bitEq + bitEq, worst := worst, sample := sample }
   | "SKIP" :: _ => return st
   | "seed" :: _ => return st
   | ["end"] => return st
@@ -94,7 +135,7 @@ def step (st : St) (line : String) : IO St := do
 def main : IO UInt32 := do
   let st ← forLines (← IO.getStdin) ({} : St) step
   let s := st.stats
-  IO.println s!"SUMMARY kind=concrete cases={s.cases} checks={s.checks} diffs={s.diffs} rejects={s.rejects} cycles_executed_in_the_model={st.cycles} of_which_also_in_exact_rationals={st.exactCycles} bit_identical_to_the_double_execution={st.bitEq} worst_difference_to_exact_execution_rel_in_units_of_2^-53={ratToSci st.worst}"
+  IO.println s!"SUMMARY kind=concrete cases={s.cases} checks={s.checks} diffs={s.diffs} rejects={s.rejects} cycles_executed_in_the_model={st.cycles} hierarchies_built_in_the_model_bit_identical_to_level_data={st.builtOpsBitEq} of_which_also_in_exact_rationals={st.exactCycles} bit_identical_to_the_double_execution={st.bitEq} worst_difference_to_exact_execution_rel_in_units_of_2^-53={ratToSci st.worst}"
   for x in st.sample do IO.println s!"SAMPLE {x}"
   return (if s.diffs == 0 ∧ s.rejects == 0 then 0 else 1)
 
